@@ -87,17 +87,40 @@ func RunRef(cases []RefCase) ([]RefResult, error) {
 			}
 		}
 	}
-	cmd := exec.Command("go", "build", "-o", "bin/", "./...")
-	cmd.Dir = dir
-	cmd.Env = append(os.Environ(), "GOARCH=386", "GOOS=linux", "CGO_ENABLED=0", "GOFLAGS=-mod=mod", "GOPROXY=off", "GOSUMDB=off", "GOTOOLCHAIN=local", "GOWORK=off")
-	if gc := refCache(); gc != "" {
-		cmd.Env = append(cmd.Env, "GOCACHE="+gc)
-	}
+	// The build cache is shared by all reference builds of this machine; another check running at the same time may
+	// empty it when it has grown past its cap. A build that fails without naming a package of ours is tried again,
+	// the last time with a cache of its own.
 	var stderr bytes.Buffer
-	cmd.Stderr = &stderr
-	cmd.Stdout = &stderr
-	buildErr := cmd.Run()
-	msgs := splitBuildErrors(stderr.String())
+	var buildErr error
+	var msgs map[string]string
+	for attempt := 0; attempt < 3; attempt++ {
+		cmd := exec.Command("go", "build", "-o", "bin/", "./...")
+		cmd.Dir = dir
+		cmd.Env = append(os.Environ(), "GOARCH=386", "GOOS=linux", "CGO_ENABLED=0", "GOFLAGS=-mod=mod", "GOPROXY=off", "GOSUMDB=off", "GOTOOLCHAIN=local", "GOWORK=off")
+		if attempt == 2 {
+			cmd.Env = append(cmd.Env, "GOCACHE="+filepath.Join(dir, "gocache-own"))
+		} else if gc := refCache(); gc != "" {
+			cmd.Env = append(cmd.Env, "GOCACHE="+gc)
+		}
+		stderr.Reset()
+		cmd.Stderr = &stderr
+		cmd.Stdout = &stderr
+		buildErr = cmd.Run()
+		msgs = splitBuildErrors(stderr.String())
+		produced, _ := os.ReadDir(filepath.Join(dir, "bin"))
+		ours := false
+		for k := range msgs {
+			for _, c := range cases {
+				if strings.HasPrefix(k, filepath.Dir(c.MainDir)) {
+					ours = true
+				}
+			}
+		}
+		if buildErr == nil || len(produced) > 0 || ours {
+			break
+		}
+		time.Sleep(2 * time.Second)
+	}
 
 	type job struct{ i int }
 	jobs := make(chan int)
